@@ -95,6 +95,51 @@ CLAIMS = {
         note="cbmc 6.11 + shim; m<=32 (64) for layouts, m<=16 for pointwise kernels, sizes<=3 for convolution; standard rounding model for the radii",
         technique="CBMC bounded model checking (SAT) for data movement; CBMC symbolic execution + exported VC re-interpreted as exact real polynomials (vcalg) for the floating-point kernels; native replay",
         ref="DESIGN.md 4/C17"),
+    "C01": dict(
+        text="The real FFT64 product pipelines (znx_small_single_product; svp_prepare + svp_apply_dft + idft / idft_tmp_a) - module built by the real "
+             "fill_module_precomp/fill_virtual_table, FFT kernels ref/AVX2/.s - are executed symbolically for N in {2..32} (64 thorough) with all operand coefficients symbolic; "
+             "the exported VC is re-interpreted over the reals: every pre-rounding output is m times the negacyclic bilinear form up to coefficient deviations and rigorous "
+             "rounding radii. Certified: |result-(a*b)_k| <= kappa*log2(N)*2^-53*|a|_1|b|_1 + 1/2 with kappa measured (in evidence), hence exactness below that bound; a sound "
+             "alarm rule on scaled unit inputs decides violations (replayed natively against an exact 128-bit product). The property's 2-norm constant itself is not decided.",
+        note="cbmc 6.11 symex + vcalg real domain; C14 contracts substituted for the two conversion kernels (stubs); standard rounding model; N>32 (64) outside",
+        technique="CBMC symbolic execution of the real pipeline, exported VC re-interpreted as exact real polynomials with rounding radii (vcalg); bit-precise zero-row/frame obligations in C11/C18; native replay",
+        ref="DESIGN.md 4/C01"),
+    "C02": dict(
+        text="vmp_prepare_contiguous + vmp_apply_dft / (vec_znx_dft + vmp_apply_dft_to_dft) + idft, ref and AVX, both prepared layouts (N=4 column-major; N=8,16 blocks): "
+             "for nrows 1..3, ncols 1..5, res_size in {0,1,2,3,5}, a_size 0..3 every output column is the sum over min(nrows,a_size) rows of the negacyclic products (same "
+             "real-polynomial analysis as C01), columns beyond ncols are zero, no output term mentions scratch or previous contents; both entry points give the same polynomial.",
+        note="cbmc 6.11 symex + vcalg real domain; C14 conversion contracts substituted; N>=32 and matrices beyond 3x5 outside; quick tier runs half of the shape combinations",
+        technique="CBMC symbolic execution of the real pipeline, exported VC re-interpreted as exact real polynomials with rounding radii (vcalg); native replay against an exact integer product",
+        ref="DESIGN.md 4/C02"),
+    "C11": dict(
+        text="Every DFT-space public entry point (fft64 and ntt120 dft/idft/idft_tmp_a, svp, small product, vmp prepare/apply/apply_dft_to_dft, ref and AVX) and a slice of the "
+             "coefficient-space ones run on exactly-sized heap objects sized by the real bytes_of_*/ *_tmp_bytes functions, all data symbolic: CBMC's pointer and bounds checks "
+             "decide that no access leaves a declared extent, for limb counts 0..3(5), nrows/ncols to 3x5, strides, 8/16/24-byte misalignment, both cpu flags.",
+        note="cbmc 6.11 (formula sliced: FP values do not matter); module built by the real fill_module_precomp with the four trig/level table builders redirected to dumped tables; "
+             "leak checks of new/delete pairs not included; one known finding (NTT120 bytes_of_*)",
+        technique="CBMC bounded model checking (pointer/bounds checks on exactly-sized objects, SAT) of the real entry points; native ASan replay",
+        ref="DESIGN.md 4/C11"),
+    "C12": dict(
+        text="Sequential non-interference reduction (CBMC cannot explore schedules of this code): (1) frame - MODULE, virtual table, precomputed objects and sources bit-identical "
+             "after every module-level entry point; (2) no hidden static state - the same entry points verified with every static-lifetime object havocked (--nondet-static); "
+             "(3) warm-up protocol of the *_simple functions - a call after warm-up returns the bits of a fresh table (shared with C15). Not a schedule exploration.",
+        note="cbmc 6.11; theorem: per-call frame + no hidden static state => race freedom/isolation for calls on disjoint data; static writes of a warmed-up *_simple call are not decided",
+        technique="CBMC bounded model checking of per-call frame conditions and of independence from static state (--nondet-static); not a thread-schedule exploration",
+        ref="DESIGN.md 4/C12"),
+    "C15": dict(
+        text="(1) three/four-call histories f(M1,P1); f(M2,P2); [f(M1,P2);] f(M1,P1) through every CBMC-executable *_simple caching entry point against a freshly initialised "
+             "table, one parameter changed at a time: outputs compared as uninterpreted terms (equal terms => equal bits), cross-checked by z3 QF_UF; (2) integer entry points with "
+             "nondeterministic previous contents of outputs: result is a function of the inputs only; (3) DFT-space entry points at buffer offsets 0/8/24.",
+        note="cbmc 6.11 symex + vcalg UF domain + z3; histories of length <= 4; reim/cplx (i)fft_simple not executable symbolically (builder casts pointers through integers)",
+        technique="CBMC symbolic execution, exported VC compared in an uninterpreted-function domain (hash-consed terms, z3 QF_UF cross-check); CBMC SAT for the integer entry points; native replay",
+        ref="DESIGN.md 4/C15"),
+    "C18": dict(
+        text="Every source operand (whole allocation incl. stride padding), prepared scalar/matrix, the MODULE, its virtual table and precomputed objects are snapshotted and "
+             "compared after every public entry point (fft64/ntt120, ref/AVX) over the C08/C11 shape boxes, with and without aliasing of other arguments; plus the x/y operands of "
+             "the q120 products and the operands of the complex-vector kernels. Documented overwriting variants are the only exceptions.",
+        note="cbmc 6.11; a source used as scratch and restored exactly on every path is indistinguishable sequentially",
+        technique="CBMC bounded model checking (SAT) of snapshot equality on exactly-sized heap objects, module from the real fill_module_precomp; native replay",
+        ref="DESIGN.md 4/C18"),
 }
 
 NOT_YET = "check not built yet in this session (work in progress; see DESIGN.md section 4 for the plan)"
